@@ -293,6 +293,10 @@ def is_call(t, method=None, func=None) -> bool:
         elif isinstance(callee, Fn):
             if callee.fi.name != method:
                 return False
+        elif isinstance(callee, Foreign):
+            # a module-level function of a foreign module, e.g. asyncio.create_task(...) for method="create_task"
+            if callee.dotted.split(".")[-1] != method:
+                return False
         else:
             return False
     if func is not None and show(callee) != func:
